@@ -18,6 +18,7 @@ GOOD = [
     ("loop", "fn main() -> int {\n    let mut i: int = 0\n    while (< i 50) {\n        (println (* i i))\n        set i (+ i 1)\n    }\n    return 0\n}\nshadow main { assert (== 1 1) }\n"),
     ("slow-printer", "fn spin(n: int) -> int {\n    let mut s: int = 0\n    let mut i: int = 0\n    while (< i n) {\n        set s (+ s (% (* i 7) 13))\n        set i (+ i 1)\n    }\n    return s\n}\nshadow spin { assert (== (spin 0) 0) }\n"
                      "fn main() -> int {\n    let mut i: int = 0\n    while (< i 400) {\n        (print \"line \")\n        (print i)\n        (print \" \")\n        (println (spin 3000))\n        set i (+ i 1)\n    }\n    return 5\n}\nshadow main { assert (== 1 1) }\n"),
+    ("uses-extern", "extern fn labs(x: int) -> int\nextern fn strlen(s: string) -> int\nfn main() -> int {\n    let mut a: int = 0\n    unsafe {\n        set a (+ (labs -41) (strlen \"four\"))\n    }\n    (println a)\n    return 2\n}\nshadow main { assert (== 1 1) }\n"),
     ("assert-fail", "fn main() -> int {\n    (println \"before\")\n    assert (== 1 2)\n    return 0\n}\nshadow main { assert (== 1 1) }\n"),
 ]
 
@@ -102,6 +103,15 @@ def run(ctx):
             blob = rng.choice(mods)["blob"] if kind.startswith("disconnect") else hello["blob"]
             if kind == "disconnect-during-output":
                 blob = mods[2]["blob"]
+                # a session that really made external calls (a co-process was started and stopped for it) comes first: whatever it
+                # changed in the daemon process must not change how the daemon takes the disconnect that follows
+                ext = next(m for m in mods if m["name"] == "uses-extern")
+                got = d.exec_blob(ext["blob"])
+                if "error" in got or got.get("out") != ext["standalone"]["out"] or not c17.exit_eq(got.get("exit"), ext["standalone"]["exit"]):
+                    oracle_fail.append({"after": "extern session before a disconnect", "why": "a session using external functions differs from standalone",
+                                        "daemon": str({k: got.get(k) for k in ("out", "err", "exit", "error")})[:400], "standalone": str(ext["standalone"])[:400]})
+                    ok = False
+                    break
             desc = vmd.bad_client(d, kind, blob, rng)
             ctx.case("bad:" + desc)
             ok = health(desc)
